@@ -348,6 +348,43 @@ def w2(ctx):
                   'f_node once' % inst(f),
                   '%s: %s' % (inst(f), '; '.join(detail) or 'non-leaf kinds do not share one arm / '
                               'f_node missing or f_leaf called for a node'), f.loc)
+        # ... on every path: with the kind fixed to any non-leaf kind, no way from the switch to
+        # the next node gets round the f_node call except the one on which f_node is absent
+        from ..descriptors import kind_edge_filter
+        sw_cond = None
+        for k_ in sws[0].kids[:-1]:
+            if k_ is not None:
+                sw_cond = k_
+        subj = member_path(strip_casts(sw_cond))
+        swn = cfg.cnode_of(sw_cond)
+        callnodes = {cfg.cnode_of(c) for c in nf}
+        heads = {w for (v, w) in cfg.back_edges if cfg.dominates(w, swn)} if swn is not None else set()
+
+        def absent(v, w, lab):
+            # the edge on which `f_node` tested false: nothing to call
+            cn = cfg.nodes[v]
+            if cn.kind != 'cond' or cn.ast is None or lab is not False:
+                return False
+            t = cn.ast.text(4)
+            return 'f_node' in t and 'f_leaf' not in t and not any(
+                x.kind == 'CXXOperatorCallExpr' and x.callee_name() == 'operator()' for x in cn.ast.walk())
+        skipped = []
+        if subj and swn is not None and heads:
+            for kind in ('None', 'Tuple', 'List', 'Dict', 'NamedTuple', 'OrderedDict', 'DefaultDict', 'Deque',
+                         'StructSequence', 'Custom'):
+                kf = kind_edge_filter(cfg, kind, subj)
+                reach = cfg.reachable_from([swn],
+                                           lambda v, w, lab: kf(v, w, lab) or absent(v, w, lab),
+                                           callnodes | heads)
+                if any(w in heads for v in reach for (w, lab) in cfg.succ[v]
+                       if not kf(v, w, lab) and not absent(v, w, lab)):
+                    skipped.append(kind)
+        ctx.check('%s/node-function-on-every-path' % short(f), not skipped,
+                  '%s: whatever the kind of a non-leaf node, the way to the next node passes the '
+                  'f_node call (unless f_node is absent)' % inst(f),
+                  '%s: a %s node can be finished without calling f_node although it is present: the '
+                  'node function is not called exactly once per internal node' % (inst(f), ', '.join(skipped)),
+                  f.loc)
         # leaves are consumed in traversal order: one iterator, advanced once per leaf arm
         incs = [n for s in leaf for n in s.walk() if n.kind == 'CXXOperatorCallExpr' and
                 n.callee_name() == 'operator++']
